@@ -37,6 +37,7 @@ UNITS = {
     "siblings": [()],
     "tsformat": [()],
     "cleanupcall": [()],
+    "tsparse": [()],
 }
 
 # property -> list of (unit, features)
@@ -45,12 +46,12 @@ PROP_UNITS = {
     "C02": [("spec", TF), ("logger", TF), ("handle_c", TF), ("handle_d", TF), ("lbuild", ()), ("specbuilder", TF), ("flw", ()), ("primary", ())],
     "C04": [("state", ()), ("handle", ()), ("flw", ()), ("primary", ()), ("dispatch", ("async",)), ("stdw", ("async",)), ("lh", TF), ("lbuild", ()), ("handle_async", ("async",)), ("logger", TF), ("wmode", ()), ("wmode", ("async",)), ("multi", ())],
     "C05": [("handle_a", TF), ("handle_b", TF), ("handle_b2", TF), ("handle_c", TF), ("spec", TF), ("lbuild", ()), ("specparse", TF), ("handle_d", TF)],
-    "C06": [("state", ()), ("timestamps", ()), ("builder", ()), ("collide", ()), ("latest", ()), ("ffilter", ()), ("hindex", ()), ("restartnum", ()), ("siblings", ()), ("infix", ()), ("lbuild", ())],
-    "C07": [("state", ()), ("listing", ()), ("cleanup", ()), ("collide", ()), ("builder", ()), ("builder", ("async",)), ("ffilter", ()), ("restartnum", ()), ("siblings", ()), ("infix", ()), ("lbuild", ()), ("cleanupcall", ())],
+    "C06": [("state", ()), ("timestamps", ()), ("builder", ()), ("collide", ()), ("latest", ()), ("ffilter", ()), ("hindex", ()), ("restartnum", ()), ("siblings", ()), ("infix", ()), ("lbuild", ()), ("tsparse", ())],
+    "C07": [("state", ()), ("listing", ()), ("cleanup", ()), ("collide", ()), ("builder", ()), ("builder", ("async",)), ("ffilter", ()), ("restartnum", ()), ("siblings", ()), ("infix", ()), ("lbuild", ()), ("cleanupcall", ()), ("tsparse", ())],
     "C08": [("state", ()), ("builder", ()), ("flw", ()), ("lbuild", ()), ("multi", ())],
     "C09": [("state", ()), ("timestamps", ()), ("builder", ()), ("lbuild", ())],
     "C13": [("logger", TF), ("flw", ()), ("multi", ()), ("primary", ()), ("lh", TF), ("lbuild", ()), ("builder", ())],
-    "C14": [("state", ()), ("listing", ()), ("naming", ()), ("timestamps", ()), ("cleanup", ()), ("latest", ()), ("infix", ()), ("symlink", ()), ("ffilter", ()), ("siblings", ())],
+    "C14": [("state", ()), ("listing", ()), ("naming", ()), ("timestamps", ()), ("cleanup", ()), ("latest", ()), ("infix", ()), ("symlink", ()), ("ffilter", ()), ("siblings", ()), ("tsparse", ())],
     "C15": [("state", ()), ("handle", ()), ("flw", ()), ("dispatch", ("async",)), ("handle_async", ("async",)), ("swrite", ()), ("stdw", ("async",)), ("lbuild", ()), ("flw", ("async",)), ("primary", ()), ("wmode", ()), ("wmode", ("async",)), ("builder", ())],
     "C16": [("naming", ()), ("listing", ()), ("state", ()), ("builder", ()), ("handle", ()), ("flw", ()), ("multi", ()), ("primary", ()), ("lh", TF), ("symlink", ()), ("ffilter", ()), ("tsformat", ()), ("lbuild", ())],
     "C17": [("specparse", TF)],
